@@ -35,7 +35,7 @@ def fname_call(f, nargs):
 def corrupt(rng, expr, pos):
     """Returns (operator, corrupted text) or None if the operator does not apply to expr."""
     ops = ["drop-close", "extra-open", "unterminated-string", "unknown-function", "arity-minus", "arity-plus", "trailing-garbage",
-           "trailing-paren", "empty", "truncate", "unterminated-name-ref", "index-overflow"]
+           "trailing-paren", "empty", "truncate", "unterminated-name-ref", "index-overflow", "unknown-input-context"]
     if pos == "sort":
         ops += ["bad-direction", "bad-direction-eq", "glued-direction"]
     op = rng.choice(ops)
@@ -55,6 +55,11 @@ def corrupt(rng, expr, pos):
     if op == "unterminated-name-ref":
         # /name/ without its closing slash, at the very end of the option value
         return op, rng.choice(["/c0", "/c", "/sel", "/a b"])
+    if op == "unknown-input-context":
+        # the documented & names, with a separator added, doubled, moved or dropped, a letter missing or added
+        t = rng.choice(["&in-dex", "&index-", "&-index", "&file--name", "&filename", "&indexin-file", "&index_", "&inde", "&indexx", "&", "&index-in", "&file",
+                        "&started-at-line", "&startedatlinenumber", "&ended-at-char-number-", "&index-in-file-name", "&file_name_", "&INDEX-"])
+        return op, rng.choice([t, "(+ 1 %s)" % t, "(default .a %s)" % t])
     if op == "index-overflow":
         return op, rng.choice([".arr#18446744073709551616", ".a#99999999999999999999999", "#18446744073709551616", "(len .arr#340282366920938463463374607431768211456)"])
     if op == "unknown-function":
@@ -196,6 +201,7 @@ def gen_unit(rng):
         elif kind < 0.87:
             pos = "set"
             op, bad = rng.choice([("set-no-equals", "novalue"), ("set-empty-name", "=1"), ("set-empty-macro-name", "@=1"),
+                                  ("set-empty-name", rng.choice([" =1", "\t=\"v\"", "  = 1", " =.a"])), ("set-empty-macro-name", rng.choice([" @=(len .)", "@ =.a", " @ = 1", "@\t=1"])),
                                   ("set-empty-value", "x="), ("set-duplicate", None), ("set-duplicate-macro", None),
                                   ("set-value-nothing", "x=.a")])
             if op in ("set-duplicate", "set-duplicate-macro"):
